@@ -25,8 +25,15 @@ pub type Txn = Vec<Post>;
 
 pub fn render(txns: &[Txn], dp2: &[&'static str]) -> String {
     let mut s = String::new();
+    // the declared precision is that of the `format` sample, however the sample spells the commodity: the commodity itself,
+    // nothing at all, or a symbol that only becomes its alias on the next line (seed C01-k); the three spellings take turns
+    static FORM: std::sync::atomic::AtomicUsize = std::sync::atomic::AtomicUsize::new(0);
     for c in dp2 {
-        s.push_str(&format!("commodity {}\n    format 1,000.00 {}\n\n", c, c));
+        match FORM.fetch_add(1, std::sync::atomic::Ordering::Relaxed) % 3 {
+            0 => s.push_str(&format!("commodity {}\n    format 1,000.00 {}\n\n", c, c)),
+            1 => s.push_str(&format!("commodity {}\n    format 1,000.00\n\n", c)),
+            _ => s.push_str(&format!("commodity {}\n    format 1,000.00 {}$\n    alias {}$\n\n", c, c, c)),
+        }
     }
     for (i, t) in txns.iter().enumerate() {
         s.push_str(&format!("2024/01/{:02} t{}\n", i + 1, i));
